@@ -5,7 +5,7 @@ Driver logic shared by `nadrv-c06` and `nadrv-c11`: one scenario per line → th
 
 Input (TAB separated):
   0 backend  asa|ios|linux|panos|nsx
-  1 mode     approve|compare
+  1 mode     approve|compare, or do:<word> = `do-approve <word> DEVICE` with an arbitrary action word
   2 name     expected device name
   3 names    name list, comma separated
   4 banner   "-" = checkbanner not configured, else the marker text (the regexp is a plain word)
@@ -130,7 +130,9 @@ def answer (line : String) : String :=
         cfg := cfg
         dev := mkDev entries (if fault == "-" then none else (fault.replace "+" "").toNat?) (fault.endsWith "+")
         plan := (if plan.isEmpty then [] else plan.splitOn us).map unesc }
-      let f := runMain b env
+      let f := if mode.startsWith "do:" then
+          runDoApprove b { cfg with isCompare := false } env.dev env.plan (mode.drop 3).toString
+        else runMain b env
       let kinds := String.join (f.trace.map fun o => kindLetter (kind b o))
       s!"exit={f.exit} diag={if f.diagnostic.isSome then 1 else 0} errU={f.errU.length} warn={f.warnings.length} status={showStatus f.status} trace={us.intercalate (f.trace.map showOut)} kinds={kinds}"
   | _ => "bad-input"
